@@ -52,7 +52,7 @@ def run():
     errors = []
     from . import index_exprs
     jobs = [('IndexExprs.lean', index_exprs.generate)]
-    for mod in ('constants', 'rotmodes', 'loops', 'colour', 'caches', 'codec', 'effects', 'wavekernels', 'geometry'):
+    for mod in ('constants', 'rotmodes', 'loops', 'colour', 'caches', 'codec', 'effects', 'wavekernels', 'geometry', 'pipelines'):
         try:
             m = __import__('harness.translate.' + mod, fromlist=['generate'])
             jobs.append((m.FILE, m.generate))
